@@ -7,6 +7,7 @@ package channeldb
 
 //@ func (c *ChannelStateDB) AdvanceCommitChainTail$1
 //@   props C02 C03
+//@   bounds-safe
 //@   loop * havoc
 //@   loop 0 step len(validUpdates) == prev(len(validUpdates)) + ite(upd.LogIndex >= newCommit.Commitment.RemoteLogIndex, 1, 0)
 //@   site call append: assert upd.LogIndex >= newCommit.Commitment.RemoteLogIndex
@@ -19,6 +20,7 @@ package channeldb
 //@
 //@ func (p *ChannelPackager) AckAddHtlcs
 //@   props C08
+//@   bounds-safe
 //@   loop * havoc
 //@   loop 0 step len(heightDiffs[addRef.Height]) == prevheap(len(heightDiffs[addRef.Height])) + 1
 //@   site call ackAddHtlcsAtHeight: assert arg(0) == sourceBkt && arg(1) == height && arg(2) == indexes
@@ -30,6 +32,7 @@ package channeldb
 //@
 //@ func (c *ChannelStateDB) UpdateChannelCommitment$1
 //@   props C03 C02
+//@   bounds-safe
 //@   loop * havoc
 //@   site call putChanCommitment: assert arg(1) == newCommitment && arg(2)
 //@   site call serializeLogUpdates nth 0: assert arg(1) == unsignedAckedUpdates
@@ -43,6 +46,7 @@ package channeldb
 //@
 //@ func (c *ChannelStateDB) putChanStatus$1
 //@   props C06 C02
+//@   bounds-safe
 //@   loop * havoc
 //@   site call putOpenChannel: assert retn(fetchOpenChannel, 1) == nil && arg(1) == retn(fetchOpenChannel, 0) && arg(0) == retn(fetchChanBucketRw, 0)
 //@   site call SetChannelStatusForStore: assert arg(0) == retn(fetchOpenChannel, 0)
@@ -50,6 +54,7 @@ package channeldb
 //@
 //@ func (c *ChannelStateDB) ClearChannelStatus$1
 //@   props C06 C02
+//@   bounds-safe
 //@   site call putOpenChannel: assert retn(fetchOpenChannel, 1) == nil && arg(1) == retn(fetchOpenChannel, 0) && arg(0) == retn(fetchChanBucketRw, 0)
 //@   site call SetChannelStatusForStore: assert arg(0) == retn(fetchOpenChannel, 0)
 //@
@@ -57,6 +62,7 @@ package channeldb
 //@ // ---- reads it back from the key of the queried request
 //@ func (c *HeightHintCache) CommitSpendHint$1
 //@   props C14
+//@   bounds-safe
 //@   loop * havoc
 //@   site call WriteElement: assert dyndata(arg(1)) == height && arg(0) == addr(hint)
 //@   site call Put: assert arg(key) == retn(spendHintKey, 0) && retn(spendHintKey, 1) == nil && ret(WriteElement) == nil && arg(value) == ret(Bytes)
@@ -66,6 +72,7 @@ package channeldb
 //@
 //@ func (c *HeightHintCache) CommitConfirmHint$1
 //@   props C14
+//@   bounds-safe
 //@   loop * havoc
 //@   site call WriteElement: assert dyndata(arg(1)) == height && arg(0) == addr(hint)
 //@   site call Put: assert arg(key) == retn(confHintKey, 0) && retn(confHintKey, 1) == nil && ret(WriteElement) == nil && arg(value) == ret(Bytes)
@@ -74,12 +81,14 @@ package channeldb
 //@
 //@ func (c *HeightHintCache) QuerySpendHint$1
 //@   props C14
+//@   bounds-safe
 //@   site call Get: assert arg(key) == retn(spendHintKey, 0) && retn(spendHintKey, 1) == nil
 //@   site call ReadElement: assert ret(Get) != nil && called(NewReader)
 //@   site call NewReader: assert arg(0) == ret(Get)
 //@
 //@ func (c *HeightHintCache) QueryConfirmHint$1
 //@   props C14
+//@   bounds-safe
 //@   site call Get: assert arg(key) == retn(confHintKey, 0) && retn(confHintKey, 1) == nil
 //@   site call ReadElement: assert ret(Get) != nil && called(NewReader)
 //@   site call NewReader: assert arg(0) == ret(Get)
@@ -87,6 +96,7 @@ package channeldb
 //@ // ---- C08: a settle/fail is acknowledged in the forwarding package of ITS source channel and height only
 //@ func ackSettleFails
 //@   props C08
+//@   bounds-safe
 //@   loop * havoc
 //@   site mapupdate destHeights: assert arg(key) == settleFailRef.Height && has(destHeightDiffs, settleFailRef.Source) &&
 //@        destHeightDiffs[settleFailRef.Source] == destHeights
@@ -101,6 +111,7 @@ package channeldb
 //@
 //@ func ackSettleFailsAtHeight
 //@   props C08
+//@   bounds-safe
 //@   loop * havoc
 //@   site call makeLogKey: assert arg(0) == height
 //@   site call NestedReadWriteBucket: assert arg(0) == destBkt
@@ -110,6 +121,7 @@ package channeldb
 //@
 //@ func ackAddHtlcsAtHeight
 //@   props C08
+//@   bounds-safe
 //@   loop * havoc
 //@   site call makeLogKey: assert arg(0) == height
 //@   site call NestedReadWriteBucket: assert arg(0) == sourceBkt
@@ -119,6 +131,7 @@ package channeldb
 //@
 //@ func (p *ChannelPackager) SetFwdFilter
 //@   props C08
+//@   bounds-safe
 //@   site call ToUint64: assert arg(0) == p.source
 //@   site call makeLogKey nth 0: assert arg(0) == ret(ToUint64)
 //@   site call makeLogKey nth 1: assert arg(0) == height
@@ -129,6 +142,7 @@ package channeldb
 //@
 //@ func (p *ChannelPackager) RemovePkg
 //@   props C08
+//@   bounds-safe
 //@   site call ToUint64: assert arg(0) == p.source
 //@   site call makeLogKey nth 0: assert arg(0) == ret(ToUint64)
 //@   site call makeLogKey nth 1: assert arg(0) == height
@@ -138,6 +152,7 @@ package channeldb
 //@ // ---- updates it carries) in the same transaction, and only for a channel that is not borked
 //@ func (c *ChannelStateDB) AppendRemoteCommitChain$1
 //@   props C02 C03
+//@   bounds-safe
 //@   site call fetchChanBucketRw: assert arg(0) == tx && arg(2) == addr(channel.FundingOutpoint)
 //@   site call isChannelBorked: assert arg(0) == channel && arg(1) == retn(fetchChanBucketRw, 0) && retn(fetchChanBucketRw, 1) == nil
 //@   site call NewChannelPackager: assert arg(0) == channel.ShortChannelID && !retn(isChannelBorked, 0) && retn(isChannelBorked, 1) == nil
@@ -152,6 +167,7 @@ package channeldb
 //@ // ---- the index order the filters and references rely on
 //@ func uint16Key
 //@   props C02 C08
+//@   bounds-safe
 //@   site call PutUint16: assert arg(1) == key && arg(2) == i && len(key) == 2
 //@   ensures len(result) == 2
 //@
@@ -159,6 +175,7 @@ package channeldb
 //@ // ---- under its own key
 //@ func (*ChannelPackager) AddFwdPkg
 //@   props C08 C02
+//@   bounds-safe
 //@   loop * havoc
 //@   site call ToUint64: assert arg(0) == fwdPkg.Source
 //@   site call makeLogKey nth 0: assert arg(0) == ret(ToUint64)
@@ -174,6 +191,7 @@ package channeldb
 //@
 //@ func putLogUpdate
 //@   props C08 C02
+//@   bounds-safe
 //@   site call uint16Key: assert arg(0) == idx
 //@   site call Put: assert arg(0) == bkt && arg(key) == ret(uint16Key) && arg(value) == ret(Bytes) && ret(serializeLogUpdate) == nil
 //@   site call serializeLogUpdate: assert arg(1) == htlc
